@@ -557,17 +557,17 @@ func runC20(c *Ctx) int {
 		c.Inconclusive("no revert where the previous version differs from the current one")
 	}
 	cov := map[string]any{
-		"evaluations":                 evals,
-		"distinct_nontrivial":         len(nontriv),
-		"rule":                        "histories = generated API programs (profiles mixed/buckets/overwrite/structural/big, 4 page sizes, both backends, freelist persisted or not, reopens and rollbacks); the live file is copied directly after each of the last 2 (quick) / 5 (thorough) commits together with the model's current and previous version; on each snapshot the freshly built CLI runs `surgery freelist abandon`, `surgery freelist rebuild` (on the abandon output, and directly: must succeed iff no list is persisted, otherwise refuse with non-zero exit), `surgery revert-meta-page`. Oracles: exit status; source SHA-256 and directory listing (only the output file may appear); D on every output (abandon: both metas valid, freelist pointer cleared, other meta fields and all data pages byte-identical, content == N; rebuild: persisted list with exact page accounting, content == N; revert: txid == older meta's, content == model version N-1, data pages byte-identical); real bbolt opens every output: dump == expected version, Tx.Check clean, free set rebuilt from the abandon output == D's unreachable pages; a further write transaction on the reverted file commits and keeps content and accounting. Non-trivial: snapshot has >= 3 tree pages; distinct = (page size, list persisted, free-set size class, tree size class, inline, overflow, command).",
-		"samples":                     samples,
-		"snapshots":                   snaps,
-		"commands_run":                cmds,
+		"evaluations":                   evals,
+		"distinct_nontrivial":           len(nontriv),
+		"rule":                          "histories = generated API programs (profiles mixed/buckets/overwrite/structural/big, 4 page sizes, both backends, freelist persisted or not, reopens and rollbacks); the live file is copied directly after each of the last 2 (quick) / 5 (thorough) commits together with the model's current and previous version; on each snapshot the freshly built CLI runs `surgery freelist abandon`, `surgery freelist rebuild` (on the abandon output, and directly: must succeed iff no list is persisted, otherwise refuse with non-zero exit), `surgery revert-meta-page`. Oracles: exit status; source SHA-256 and directory listing (only the output file may appear); D on every output (abandon: both metas valid, freelist pointer cleared, other meta fields and all data pages byte-identical, content == N; rebuild: persisted list with exact page accounting, content == N; revert: txid == older meta's, content == model version N-1, data pages byte-identical); real bbolt opens every output: dump == expected version, Tx.Check clean, free set rebuilt from the abandon output == D's unreachable pages; a further write transaction on the reverted file commits and keeps content and accounting. Non-trivial: snapshot has >= 3 tree pages; distinct = (page size, list persisted, free-set size class, tree size class, inline, overflow, command).",
+		"samples":                       samples,
+		"snapshots":                     snaps,
+		"commands_run":                  cmds,
 		"reverts_where_versions_differ": revertDiff,
-		"unreachable_ids_in_snapshots": freeIDs,
-		"histories":                   len(files),
-		"skipped":                     skipped,
-		"distinct_fingerprints_all":   len(fps),
+		"unreachable_ids_in_snapshots":  freeIDs,
+		"histories":                     len(files),
+		"skipped":                       skipped,
+		"distinct_fingerprints_all":     len(fps),
 	}
 	return c.Finish("exploration", cov, []string{
 		"model versions N and N-1 are recorded by the executor at each commit; a reopen that spends a transaction id on a freelist flush does not change content, so 'previous committed state' is compared by content",
